@@ -95,6 +95,19 @@ func routeGen(kind string, sequential bool) func(r *rand.Rand, tier string) []sp
 			if kind == "mux" {
 				p.DispG, p.DispN = 1+r.Intn(6), 1+r.Intn(5)
 			}
+			if kind == "grpcmux" && i%4 == 3 {
+				// a short sequence whose redials land on the instant the broker expires
+				// the bookkeeping of the previous dial to the same listener (5 s later)
+				p.Items = p.Items[:0]
+				for j := uint32(1); j <= 4; j++ {
+					p.Items = append(p.Items, spec.RouteItem{Dir: "host", AcceptFirst: true, ID: j})
+					p.Items = append(p.Items, spec.RouteItem{Dir: "plugin", AcceptFirst: true, ID: j})
+				}
+				for j := uint32(1); j <= 4; j++ {
+					p.Items = append(p.Items, spec.RouteItem{Dir: "host", Redial: true, AtExpiry: true, ID: j, SkewUs: r.Intn(3000) - 1500})
+					p.Items = append(p.Items, spec.RouteItem{Dir: "plugin", Redial: true, AtExpiry: true, ID: j, SkewUs: r.Intn(3000) - 1500})
+				}
+			}
 			out = append(out, spec.Case{Kind: kind, P: spec.MustJSON(p)})
 		}
 		return out
